@@ -114,6 +114,8 @@ def run(ctx, tier):
     ctx.rule("R4", "decode-side tables map exactly the hex digits")
     ctx.rule("R5", "encoder loop: hex on bit_at true edge, verbatim on false edge, same byte")
     ctx.rule("R6", "bit_at layout")
+    ctx.rule("R9", "(shared with C12.Q5) form-urlencoded decoding: a byte is copied verbatim only after it was tested not to be '+', "
+                   "and ' ' is written only for '+' (decoding inverts the serializer's ' ' -> '+')")
     ctx.rule("R8", "the two percent-decoders' arithmetic: two more bytes needed behind '%', value = hi*16 + lo, three bytes consumed")
     ctx.rule("R7", "path_signature_table, the second copy of the path percent-encode set that lets prepared paths be copied "
                    "verbatim, flags exactly the bytes of that set")
@@ -331,6 +333,8 @@ def check_config(ctx, fx, cfg):
                           where=t["loc"])
     from rules import c10_limits
     c10_limits.check_hex_decoders(ctx, fx, "R8")
+    from rules import c12 as _c12
+    _c12.check_decoder_copies(ctx, fx, "R9")
     hexmap_table("ada::unicode::unhex_table", 0xFF)
     hexmap_table("ada::detail::hex_nibble", 0xFF)
     hexmap_table("ada::unicode::hex_to_binary_table", 0, index_of=lambda b: b - 0x30, n=55, only_hex=True)
